@@ -133,7 +133,28 @@ type intEval struct {
 }
 
 func (ev *intEval) mk(k numKind, f Form, m int) IV {
-	return IV{k: k, f: f, m: m, lo: f.eval(ev.pc.lo), hi: f.eval(ev.pc.hi)}
+	v := IV{k: k, f: f, m: m, lo: f.eval(ev.pc.lo), hi: f.eval(ev.pc.hi)}
+	// actual ≡ ideal (mod 2^m): when the congruence is known to the full width, the ideal form may be
+	// replaced by any representative of its class. Choose the one inside the type's range if there is
+	// one (this is how `x + ^D(0)` is read as x - 1).
+	if m == k.Bits && k.Bits > 0 {
+		mn, mx := k.minMax()
+		if v.lo.Cmp(mn) < 0 || v.hi.Cmp(mx) > 0 {
+			mod := new(big.Int).Lsh(big.NewInt(1), uint(k.Bits))
+			// shift so that lo lands in [mn, mn+2^w)
+			q := floorDiv(new(big.Int).Sub(v.lo, mn), mod)
+			if q.Sign() != 0 {
+				sh := new(big.Int).Mul(q, mod)
+				lo2, hi2 := new(big.Int).Sub(v.lo, sh), new(big.Int).Sub(v.hi, sh)
+				if lo2.Cmp(mn) >= 0 && hi2.Cmp(mx) <= 0 {
+					f2 := f
+					f2.C = new(big.Int).Sub(f.C, sh)
+					v.f, v.lo, v.hi = f2, lo2, hi2
+				}
+			}
+		}
+	}
+	return v
 }
 
 func nu2(c *big.Int) int {
